@@ -391,6 +391,12 @@ func (k Keeper) SetOwnerServiceBinding(ctx sdk.Context, svcBinding types.Service
 
 // GetOwnerServiceBindings retrieves the service bindings with the specified service name and owner
 func (k Keeper) GetOwnerServiceBindings(ctx sdk.Context, owner sdk.AccAddress, serviceName string) []*types.ServiceBinding {
+	// the index keys are owner | service name | 0x00 | provider with a 20-byte owner: an owner of another
+	// length, joined with the service name, would spell the keys of a different owner and service
+	if len(owner) != sdk.AddrLen {
+		return []*types.ServiceBinding{}
+	}
+
 	store := ctx.KVStore(k.storeKey)
 
 	bindings := make([]*types.ServiceBinding, 0)
